@@ -3,4 +3,5 @@ let components : (string * Generic.component) list = [
   ("shardid", ShardIdComp.shardid_component);
   ("pool", PoolComp.pool_component);
   ("timecache", TimeCacheComp.timecache_component);
+  ("unit", UnitComp.unit_component);
 ]
